@@ -410,6 +410,187 @@ theorem matchesB_iff (r : Regex) (w : List Int) : matchesB r w = true ↔ L r w 
   unfold matchesB
   rw [nullable_iff, derivs_correct, List.append_nil]
 
+/-! ### head normal form -/
+
+/-- the non-empty words of `r{mn,mx}` start with a non-empty word of `r` -/
+theorem L_rep_first (r hr : Regex) (hhr : ∀ w, L hr w ↔ L r w ∧ w ≠ []) (mn : Nat) (mx : Option Nat)
+    (hmx : mx ≠ some 0) (w : List Int) :
+    L (seq hr (repS r (mn - 1) (mx.map (· - 1)))) w ↔ L (.rep r mn mx) w ∧ w ≠ [] := by
+  rw [L_seq, L_rep]
+  constructor
+  · rintro ⟨u, v, e, hu, hv⟩
+    rw [hhr] at hu
+    rw [L_repS, L_rep] at hv
+    obtain ⟨k', h1, h2, h3⟩ := hv
+    refine ⟨⟨k' + 1, by omega, ?_, u, v, e, hu.1, h3⟩, ?_⟩
+    · intro m hm
+      subst hm
+      have := h2 (m - 1) rfl
+      have hm0 : m ≠ 0 := by intro h0; subst h0; exact hmx rfl
+      omega
+    · intro hw
+      rw [hw] at e
+      have := (List.append_eq_nil_iff.1 e.symm).1
+      exact hu.2 this
+  · rintro ⟨⟨k, h1, h2, h3⟩, hne⟩
+    cases w with
+    | nil => exact absurd rfl hne
+    | cons s w =>
+      obtain ⟨j, u, v, hk, e, hu, hv⟩ := pow_cons k s w h3
+      refine ⟨s :: u, v, by simp [e], (hhr _).2 ⟨hu, by simp⟩, ?_⟩
+      rw [L_repS, L_rep]
+      refine ⟨j, by omega, ?_, hv⟩
+      intro m' hm'
+      cases mx with
+      | none => simp at hm'
+      | some m =>
+        simp at hm'
+        have := h2 m rfl
+        omega
+
+theorem L_headsRep (r hr : Regex) (nr : Bool) (hhr : ∀ w, L hr w ↔ L r w ∧ w ≠ [])
+    (hnr : nr = true → L r []) :
+    ∀ (fuel mn : Nat) (mx : Option Nat) (w : List Int),
+      L (headsRep hr nr r fuel mn mx) w ↔ L (.rep r mn mx) w ∧ w ≠ [] := by
+  have hzero : ∀ (mn : Nat) (w : List Int), L empty w ↔ L (.rep r mn (some 0)) w ∧ w ≠ [] := by
+    intro mn w
+    constructor
+    · intro h; exact absurd h (L_empty w)
+    · rintro ⟨⟨k, _, hk, hp⟩, hne⟩
+      have : k = 0 := Nat.le_zero.1 (hk 0 rfl)
+      subst this
+      exact absurd hp hne
+  intro fuel
+  induction fuel with
+  | zero =>
+    intro mn mx w
+    simp only [headsRep]
+    split
+    · exact hzero mn w
+    · rename_i hmx
+      exact L_rep_first r hr hhr mn mx (fun h => hmx h) w
+  | succ fuel ih =>
+    intro mn mx w
+    simp only [headsRep]
+    split
+    · exact hzero mn w
+    · rename_i hmx
+      have hmx' : mx ≠ some 0 := fun h => hmx h
+      split
+      · rename_i hcond
+        simp only [Bool.and_eq_true] at hcond
+        rw [L_union, ih, L_rep_first r hr hhr mn mx hmx' w]
+        constructor
+        · rintro (h | ⟨⟨k', h1, h2, h3⟩, hne⟩)
+          · exact h
+          · refine ⟨⟨k' + 1, by omega, ?_, pow_mono_succ (hnr hcond.1) _ _ h3⟩, hne⟩
+            intro m hm
+            subst hm
+            have := h2 (m - 1) rfl
+            have hm0 : m ≠ 0 := by intro h0; subst h0; exact hmx' rfl
+            omega
+        · intro h; exact Or.inl h
+      · exact L_rep_first r hr hhr mn mx hmx' w
+
+theorem L_heads (r : Regex) (w : List Int) : L (heads r) w ↔ L r w ∧ w ≠ [] := by
+  induction r generalizing w with
+  | eps =>
+    simp only [heads, L_eps]
+    constructor
+    · intro h; exact absurd h (L_empty w)
+    · rintro ⟨h, hne⟩; exact absurd h hne
+  | cc c =>
+    simp only [heads, L_cc]
+    constructor
+    · rintro ⟨s, e, h⟩; exact ⟨⟨s, e, h⟩, by rw [e]; simp⟩
+    · rintro ⟨h, _⟩; exact h
+  | cat a b iha ihb =>
+    simp only [heads]
+    split
+    · rename_i hn
+      rw [L_union, L_seq, ihb, L_cat]
+      constructor
+      · rintro (⟨u, v, e, hu, hv⟩ | ⟨h, hne⟩)
+        · rw [iha] at hu
+          refine ⟨⟨u, v, e, hu.1, hv⟩, ?_⟩
+          intro hw
+          rw [hw] at e
+          exact hu.2 (List.append_eq_nil_iff.1 e.symm).1
+        · exact ⟨⟨[], w, rfl, (nullable_iff a).1 hn, h⟩, hne⟩
+      · rintro ⟨⟨u, v, e, hu, hv⟩, hne⟩
+        by_cases hu0 : u = []
+        · subst hu0
+          simp only [List.nil_append] at e
+          subst e
+          exact Or.inr ⟨hv, hne⟩
+        · exact Or.inl ⟨u, v, e, (iha u).2 ⟨hu, hu0⟩, hv⟩
+    · rename_i hn
+      rw [L_seq, L_cat]
+      constructor
+      · rintro ⟨u, v, e, hu, hv⟩
+        rw [iha] at hu
+        refine ⟨⟨u, v, e, hu.1, hv⟩, ?_⟩
+        intro hw
+        rw [hw] at e
+        exact hu.2 (List.append_eq_nil_iff.1 e.symm).1
+      · rintro ⟨⟨u, v, e, hu, hv⟩, _⟩
+        refine ⟨u, v, e, (iha u).2 ⟨hu, ?_⟩, hv⟩
+        intro hu0
+        subst hu0
+        exact hn ((nullable_iff a).2 hu)
+  | alt a b iha ihb =>
+    simp only [heads]
+    rw [L_union, iha, ihb, L_alt]
+    constructor
+    · rintro (⟨h, hne⟩ | ⟨h, hne⟩)
+      · exact ⟨Or.inl h, hne⟩
+      · exact ⟨Or.inr h, hne⟩
+    · rintro ⟨h | h, hne⟩
+      · exact Or.inl ⟨h, hne⟩
+      · exact Or.inr ⟨h, hne⟩
+  | rep r mn mx ih =>
+    simp only [heads]
+    exact L_headsRep r (heads r) (nullable r) ih (nullable_iff r).1 _ mn mx w
+  | ext n =>
+    simp only [heads]
+    constructor
+    · intro h; exact absurd h (L_empty w)
+    · rintro ⟨h, _⟩; exact absurd h (L_ext n w)
+
+theorem L_norm (r : Regex) (w : List Int) : L (norm r) w ↔ L r w := by
+  unfold norm
+  split
+  · rename_i hn
+    rw [L_union, L_heads, L_eps]
+    constructor
+    · rintro (h | h)
+      · subst h; exact (nullable_iff r).1 hn
+      · exact h.1
+    · intro h
+      by_cases hw : w = []
+      · exact Or.inl hw
+      · exact Or.inr ⟨h, hw⟩
+  · rename_i hn
+    rw [L_heads]
+    constructor
+    · intro h; exact h.1
+    · intro h
+      refine ⟨h, ?_⟩
+      intro hw
+      subst hw
+      exact hn ((nullable_iff r).2 h)
+
+/-- The normalised derivative by a word (what `scanSpec` and the validator iterate). -/
+def derivsN (r : Regex) (w : List Int) : Regex := w.foldl (fun r s => norm (deriv s r)) r
+
+theorem derivsN_correct (r : Regex) (u w : List Int) : L (derivsN r u) w ↔ L r (u ++ w) := by
+  induction u generalizing r with
+  | nil => exact Iff.rfl
+  | cons s u ih =>
+    show L (derivsN (norm (deriv s r)) u) w ↔ _
+    rw [ih, L_norm, deriv_correct]
+    rfl
+
 /-! ### emptiness -/
 
 theorem pow_repeat {P : List Int → Prop} {u : List Int} (h : P u) (k : Nat) :
